@@ -7,7 +7,7 @@ HOOKS = {
     "add_only": True,
 }
 ENGINES = [
-    {"name": "grid", "path": "/verif/mc/props", "serves_properties": ["C01", "C02", "C04", "C05", "C06", "C07", "C16", "C17"],
+    {"name": "grid", "path": "/verif/mc/props", "serves_properties": ["C01", "C02", "C04", "C05", "C06", "C07", "C12", "C16", "C17"],
      "kind_free_text": "complete Cartesian products of finite input alphabets executed on the real code and compared with an explicit oracle or metamorphic relation"},
     {"name": "fault", "path": "/verif/mc/props/C08.py", "serves_properties": ["C08"],
      "kind_free_text": "fault-point enumerator: public-API fault menu x position and sys.settrace call-level injection, snapshot oracle"},
@@ -167,5 +167,14 @@ CHECKS["C03"] = dict(
          "R B_local(R^T(obs - p)).",
     note="rel. tolerance 1e-9; observers are >= 1e-2 from all surfaces. The relation has no external oracle, so a defect that is itself "
          "covariant is only caught by the definitional depth-0 check.")
+CHECKS["C12"] = dict(
+    engine="grid", level="exploration", design_ref="DESIGN.md §4 C12",
+    technique="bounded-exhaustive enumeration of (class x regime x observer cell x length decade x excitation magnitude) with the oracle-free scaling relation between two real evaluations",
+    text="For 11 class variants (incl. a left-handed Tetrahedron) x up to 3 regimes, all observer cells of C01 are re-evaluated with every "
+         "length multiplied by 10^k, k in {-9,-6,-3,3,6,9} (thorough: every k in -9..9) and compared with k=0 and with the neighbouring "
+         "decade; excitation magnitudes 1e-12, 1, 1e12; B and H (and J as the inside mask) must be unchanged for magnets, scale as 1/s "
+         "for currents and 1/s^3 for dipoles; TriangularMesh status flags and reoriented faces must be identical at every scale.",
+    note="Tolerance 1e-7 (1e-5 next to edge extension lines), never sharper than C01's accuracy model for the cell, relative to "
+         "max(|X|, 1e-3 max|X|). 17 known-finding patterns (absolute tolerances in CylinderSegment, triangle_Bfield, TriangularMesh inside test).")
 _todo = "check not built yet in this session (planned, see DESIGN.md §4); nothing is claimed for it"
 NOT_APPLICABLE = [{"property_id": f"C{i:02d}", "reason": _todo} for i in range(1, 21) if f"C{i:02d}" not in CHECKS]
